@@ -187,11 +187,12 @@ def run(tier):
         rep.setcov('outcomes', outcomes)
         if outcomes.get('ok', 0) < 1000 or outcomes.get('err', 0) < 1000:
             raise MachineryError('vacuity guard: too few accepted / refused entries')
+        drifted = lang.drifted(tr, reports, rep)
         for pr in reports:
             x = recs[pr['index']]
             c, t, g, r, site = meta[pr['index']]
-            if pr['kind'] == 'drift':
-                raise MachineryError('automaton and re disagree on %r' % c)
+            if pr['kind'] == 'drift' or pr['index'] in drifted:
+                continue
             for cl in pr['clauses']:
                 rep.add_violation(signature(cl, c, t, r, site, x, pats),
                                   '%s: check_performance_for_discipline(%r, %r, gender=%r, prec=%s) -> %s %r%s; again: %s' % (
